@@ -231,6 +231,42 @@ def gen_history(rng, n_ops, k=0, wb=False, late_create=False):
     ops.append({'op': 'open', 'i': 1, 'flags': O_RDWR, 'fuse_flags': 0}); fh = nh; nh += 1; hflags.append(O_RDWR)
     ops.append({'op': 'flush', 'i': 1, 'h': fh}); ops.append({'op': 'flush', 'i': 2, 'h': fh})
     ops.append({'op': 'release', 'i': 2, 'h': fh}); ops.append({'op': 'release', 'i': 1, 'h': fh}); ops.append({'op': 'flush', 'i': 1, 'h': fh})
+    # (audit 6) the flags word of OPENDIR is a request field of its own: non-zero words (access modes, O_TRUNC, O_APPEND, O_NOATIME)
+    # on the root, a subdirectory and a regular file -- the direct call is open(O_DIRECTORY | flags): EISDIR / ENOTDIR / success
+    ODF = [O_WRONLY, O_RDWR, O_TRUNC, O_APPEND, 0o1000000, O_RDWR | O_TRUNC, O_NONBLOCK, O_WRONLY | O_APPEND]
+    for j in range(2):
+        fl = ODF[(2 * k + j) % len(ODF)]
+        for tgt in (0, 5, 1):
+            ops.append({'op': 'opendir', 'i': tgt, 'flags': fl}); dh = nh; nh += 1; hflags.append(fl | O_DIRECTORY)
+            ops.append({'op': 'fsyncdir', 'i': tgt, 'h': dh, 'datasync': 0})
+            ops.append({'op': 'releasedir', 'i': tgt, 'h': dh})
+    # (audit 6) the kill-privilege flag of every request kind that has one, aimed at a set-uid/set-gid file in every history (the
+    # serving thread must run the call without CAP_FSETID exactly when killpriv_v2 was negotiated and the flag is set): WRITE with
+    # WRITE_KILL_PRIV (non-empty and empty), OPEN(O_TRUNC) and CREATE(O_TRUNC) on the existing name with FOPEN_IN_KILL_SUIDGID,
+    # SETATTR(SIZE) with KILL_SUIDGID with and without a handle; the mode is restored before and read back after each
+    ops.append({'op': 'create', 'p': 0, 'name': b'kp', 'mode': 0o6755, 'umask': 0, 'flags': O_RDWR, 'fuse_flags': 0, 'uid': 0, 'gid': 0})
+    kpi = ni; kph = nh; ni += 1; nh += 1; hflags.append(O_RDWR)
+    ops.append({'op': 'write', 'i': kpi, 'h': kph, 'off': 0, 'data': b'kill-priv', 'flags': O_RDWR, 'fuse_flags': 0})
+    KP = ['write', 'write-empty', 'open-trunc', 'setattr', 'setattr-handle', 'create-trunc', 'write-noflag']
+    for j in range(4):
+        v = KP[(4 * k + j) % len(KP)]
+        ops.append({'op': 'setattr', 'i': kpi, 'h': None, 'valid': 1, 'mode': 0o6755, 'uid': 0, 'gid': 0, 'size': 0})
+        if v.startswith('write'):
+            ops.append({'op': 'write', 'i': kpi, 'h': kph, 'off': 2, 'data': b'' if v == 'write-empty' else b'KP', 'flags': O_RDWR, 'fuse_flags': 0 if v == 'write-noflag' else 4})
+        elif v == 'open-trunc':
+            ops.append({'op': 'open', 'i': kpi, 'flags': O_WRONLY | O_TRUNC, 'fuse_flags': 1}); nh += 1; hflags.append(O_WRONLY | O_TRUNC)
+        elif v == 'create-trunc':
+            ops.append({'op': 'create', 'p': 0, 'name': b'kp', 'mode': 0o644, 'umask': 0, 'flags': O_RDWR | O_TRUNC, 'fuse_flags': 1, 'uid': 0, 'gid': 0}); ni += 1; nh += 1; hflags.append(O_RDWR | O_TRUNC)
+        else:
+            ops.append({'op': 'setattr', 'i': kpi, 'h': kph if v == 'setattr-handle' else None, 'valid': 8 | 0x800, 'mode': 0, 'uid': 0, 'gid': 0, 'size': 3 + j})
+        ops.append({'op': 'getattr', 'i': kpi, 'h': None})
+    # (audit 6) entry replies (statx path) after explicit time stamps were set: every time field of every reply is compared (see
+    # time_fields_differ); f1 carries the explicit atime/mtime of the SETATTR block unless a later request touched it
+    ops.append({'op': 'lookup', 'p': 0, 'name': b'f1'}); ni += 1
+    ops.append({'op': 'setattr', 'i': kpi, 'h': None, 'valid': 0x10 | 0x20, 'mode': 0, 'uid': 0, 'gid': 0, 'size': 0, 'atime': 1200000000 + k, 'ansec': 123456789, 'mtime': 1300000000 + k, 'mnsec': 987654321})
+    ops.append({'op': 'lookup', 'p': 0, 'name': b'kp'}); ni += 1
+    ops.append({'op': 'link', 'i': kpi, 'p': 5, 'name': b'kpl'}); ni += 1
+    ops.append({'op': 'getattr', 'i': kpi, 'h': None})
     # (with inode_file_handles the create-on-existing block runs into the known finding for non-root callers: run it late)
     if late_create: create_existing_block()
     # the per-request flags word of READ/WRITE (last, because under writeback it runs into the known finding):
@@ -290,6 +326,19 @@ def time_classes(o_prev, r_prev, o, r):
         else: out.append('other:%d.%d' % after)
     return tuple(out)
 
+def time_fields_differ(ra, rb, now):
+    """every time field (and the block size) of an attribute-carrying reply against the direct calls: a field that is far from
+    the present on either side was set explicitly by an earlier request and must be equal to the nanosecond; otherwise both
+    sides must be near the present (the two runs happen minutes apart).  -> list of differing field names"""
+    out = []
+    for key in ('atime', 'mtime', 'ctime'):
+        if key not in ra or key not in rb: continue
+        va, vb = parse_ts(ra[key]), parse_ts(rb[key])
+        fa, fb = abs(va[0] - now) > 86400, abs(vb[0] - now) > 86400
+        if fa != fb or (fa and va != vb): out.append(key)
+    if 'blksize' in ra and 'blksize' in rb and ra['blksize'] != rb['blksize']: out.append('blksize')
+    return out
+
 def replay(path):
     return run_check('quick', json.load(open(path)).get('seed', 1))
 
@@ -305,12 +354,15 @@ def run_check(tier, seed):
                       'no other actor modifies the export during a history']
     findings = []; broken = []; samples = []; evals = 0; nontriv = set()
     rng = random.Random(seed); quick = tier == 'quick'
+    import time; now0 = int(time.time()); nfind_t = 0
     # the cone of Props/C05.v contains the translated name constants (Gen/Validators.v, via Model/Names.v)
     try:
         write_if_changed(os.path.join(COQ, 'Gen/Validators.v'), validators.emit_coq(validators.translate(REPO)))
     except validators.TranslateError as ex:
         broken.append({'kind': 'translator', 'item': 'translator/validators.py', 'error': str(ex)})
+    import pure_tie; pure_tie.prepare(PROP, ev, broken)      # Gen/RustPure.v from the function bodies in REPO (PROP_src_* theorems)
     audit = std_audit(ev, PROP, broken)
+    pure_tie.after_audit(PROP, broken)                         # a source tie broke: look for a concrete differing input
     coq_ok = bool(audit.get('ok'))
     ok, out, bindir = cargo_build(['ptfs'])
     if not ok:
@@ -416,6 +468,13 @@ def run_check(tier, seed):
                                 findings.append({'what': 'request %d (%s): atime/mtime afterwards are (%s, %s) but the direct calls give (%s, %s)' % (j, op_line(o), ka[0], ka[1], kb[0], kb[1]),
                                                  'input': rin, 'sig': {'kind': 'times', 'valid_time_bits': o['valid'] & 0x1b0}})
                             time_cases.append((hh['k'], j, o, ka))
+                    if not diverged and errno_of(ra['r']) == 0 and errno_of(rb['r']) == 0 and ca == cb:
+                        tf = time_fields_differ(ra['r'], rb['r'], now0)
+                        if tf:
+                            nfind_t += 1
+                            if nfind_t <= 12:
+                                findings.append({'what': 'request %d (%s): the %s of the reply differs from the same calls made directly: passthrough %s | direct %s' % (j, op_line(o), '/'.join(tf), ra['raw'], rb['raw']),
+                                                 'input': rin, 'sig': {'kind': 'time-field', 'op': o['op'], 'field': tf[0]}})
                     if not diverged and (ca != cb or ra['tree'] != rb['tree']):
                         diverged = True
                         fld = sorted(k for k in set(ca) | set(cb) if ca.get(k) != cb.get(k)) or ['tree']
